@@ -12,7 +12,7 @@ Main results (all for an arbitrary growth policy `g`, arbitrary histories, any n
 * `norm_index` — `NormalizeArrayIndex` accepts exactly `-n ≤ i < n` and returns `i mod n`;
 * `run_refines` — the heap model refines the specification for every slice-free history
   (states related by `R`, answers equal);
-* `view_refines`, `push_refines` … — what each operation does to the sequence it names;
+* `view_refines`, `push_refines`, `slice_range_refines` … — what each operation does to the sequence it names;
 * `no_aliasing` — an operation never changes the sequence or capacity of any list but its target;
 * `oob_is_error` — on the Elk-visible (guarded) operations the model never answers a Go panic,
   except `*` with a count whose product with the length reaches `maxAlloc` (known finding);
@@ -260,6 +260,45 @@ theorem remove_refines {o : Nat} {al : AL} (hA : A[o]? = some al) (v : Val) :
     | cons x xs ih => simp only [removeAll, List.filter_cons]; split <;> simp_all
   refine ⟨?_, by rw [hans]; simp [astep, hA]⟩
   rw [(view_refines hR o).1]; simp only [astep, hA]; simp [lt_of_getElem? hA, hf]
+
+/-- **range slicing** (`a[s...e]`, `a[s..<e]`, …, `Tuple#slice`): both bounds are normalised like single
+indices (negative counts from the end, out of range is an `IndexError`), the result is a *new* list with
+the elements from the first to the last index inclusive -/
+theorem slice_range_refines {o : Nat} {al : AL} (hA : A[o]? = some al) (r : RangeK) :
+    (∀ i j, normIndex (r.bounds al.xs.length).1 al.xs.length = some i →
+        normIndex (r.bounds al.xs.length).2 al.xs.length = some j →
+        (step g st (.vsl o r)).2 = .obj A.length ∧
+        view (step g st (.vsl o r)).1 A.length = some ((al.xs.drop i).take (j + 1 - i)) ∧
+        view (step g st (.vsl o r)).1 o = some al.xs) ∧
+    ((normIndex (r.bounds al.xs.length).1 al.xs.length = none ∨
+        normIndex (r.bounds al.xs.length).2 al.xs.length = none) → (step g st (.vsl o r)).2 = .oor) := by
+  obtain ⟨hR, hans⟩ := sim_vsl g h o r
+  have hpe : ∀ (ys : List Val) (a0 : AL), (apushEach g a0 ys).xs = a0.xs ++ ys := by
+    intro ys
+    induction ys with
+    | nil => intro a0; simp [apushEach]
+    | cons y ys ih => intro a0; simp [apushEach, ih, apush]
+  constructor
+  · intro i j hi hj
+    cases hb : r.bounds al.xs.length with
+    | mk lo hi' =>
+      rw [hb] at hi hj
+      simp only at hi hj
+      refine ⟨by rw [hans]; simp [astep, hA, hb, hi, hj], ?_, ?_⟩
+      · rw [(view_refines hR _).1]; simp [astep, hA, hb, hi, hj, hpe]
+      · rw [(view_refines hR _).1]
+        simp only [astep, hA, hb, hi, hj]
+        rw [List.getElem?_append_left (lt_of_getElem? hA), hA]; rfl
+  · intro hn
+    cases hb : r.bounds al.xs.length with
+    | mk lo hi' =>
+      rw [hb] at hn
+      simp only at hn
+      rw [hans]
+      simp only [astep, hA, hb]
+      rcases hn with hn | hn
+      · simp [hn]
+      · cases normIndex lo al.xs.length <;> simp [hn]
 
 end ops
 
